@@ -194,7 +194,7 @@ PROPS["C01"] = {
     "rule": "random real performSwitchover runs: 2-5 nodes, semi-sync (w 1-2) / plain / async mode, GTID histories with two source uuids, gaps, executed behind by 0-20 with retrieved-but-unapplied tails, diverged replicas, lags around the priority bound, priorities 0-2; request kinds {to a host, from the master, automatic failover, operator-forced failover, worker without transition}; master dead or hanging from the start, replicas dead, published list with or without the last host; one of: a failing/hanging/lost-reply statement (13 kinds, 1st or 2nd occurrence, any host), a node killed when a given statement kind first arrives, a scripted lock loss at the 1st/2nd re-check, a failing/lost coordination write. Ground-truth snapshots of all servers are taken at the first lock re-check and whenever SET GLOBAL read_only=0 arrives. distinct = distinct run; non-trivial = more than two observable steps; request kinds incl. automatic failover taken up again after the master key moved (`from` is no longer the recorded master); 60 % semi-sync / 20 % async mode with the allowed-lag exception (candidates with a broken SQL thread, varied repl_mon delay) / 20 % neither Since the round-3/4 seeded changes: a sixth of the runs have a slow server or a latency blip (servers and coordination service), a quarter of the replicas apply their relay log only seconds after the freeze (received ≠ applied while a lag is reported), a quarter of the runs start with leftovers in the optimisation registry, every second coordination tree carries old parent nodes, 20 s of settling time after the procedure returns.",
     "assumptions": ["E3 is proved in the environment model; that the fake servers implement it (a read-only server with stopped IO thread does not grow executed+retrieved) is part of T4"],
     "min_lines": 1000,
-    "level_text": "Theorems for all oracle inputs (= all combinations of failing calls, all cluster shapes, all request kinds) and all crash prefixes: before any promotion the quorum re-count of FROZEN hosts against the published list passed, both lock re-checks passed in the right places, exactly the frozen hosts' positions were collected and have a maximum, the new master caught up (or the async escape, which needs async mode + automatic cause + positive allowed lag); semantic core promotion_safe: every frozen host's executed+retrieved set is contained in the promoted node's executed set (via the C13 maximal-element theorem and transitivity), with E3 proved as an environment lemma; split brain aborts with the marker and nothing promoted; marker only on split brain. Monitors on real runs evaluate PromotionOK on ground-truth snapshots at the moment read_only=0 arrives.",
+    "level_text": "Theorems for all oracle inputs (= all combinations of failing calls, all cluster shapes, all request kinds) and all crash prefixes: before any promotion the quorum re-count of FROZEN hosts against the published list passed, both lock re-checks passed in the right places, exactly the frozen hosts' positions were collected and have a maximum, the new master caught up (or the async escape, which needs async mode + automatic cause + positive allowed lag); semantic core promotion_safe: every frozen host's executed+retrieved set is contained in the promoted node's executed set (via the C13 maximal-element theorem and transitivity), with E3 proved as an environment lemma; promotion_safe_joined states it for the servers' own executed and retrieved sets (position = Update of the two, proved to be their union and well-formed); split brain aborts with the marker and nothing promoted; marker only on split brain. Monitors on real runs evaluate PromotionOK on ground-truth snapshots at the moment read_only=0 arrives.",
     "level_note": "Trusted: Lean kernel; fake server semantics; observer; tie-break search. The link 'collected position = ground-truth total' is checked by the monitor on every run, assumed (hpos/hcaught) in promotion_safe.",
     "technique": "Lean 4 proof over a phase-level oracle model (crash = prefix) + environment lemma + differential check and ground-truth promotion monitor on fault-injected real runs",
 }
